@@ -150,7 +150,20 @@ class Multi(Histories):
         abc = dict(classes=ab, files=abf, base=abb[0], context=None)
         abc['ops'] = [{'op': 'multi', 'bases': abb}] + [{'op': 'value', 'chain': ch, 'pick': k} for ch in (0, 1, 0) for k in range(3)] + \
                      [{'op': 'restart'}, {'op': 'multi', 'bases': abb[::-1]}] + [{'op': 'value', 'chain': ch, 'pick': k} for ch in (1, 0) for k in range(3)]
-        return [c, d, g, n, sh, nc, lf, mt, abc]
+        # three variants of one pipeline; the members mount them under the same two namespaces in different roles, and the
+        # namespaces are forced one after the other through the MultiChain
+        tr = [dict(K(0, 'Source', params=[P('speed')]), name='source'), dict(K(1, 'Model', meta_inputs=[{'cls': 0}]), name='model')]
+        trf = {'fast.json': {'tasks': ['@M.*'], 'speed': 1}, 'slow.json': {'tasks': ['@M.*'], 'speed': 2}, 'new.json': {'tasks': ['@M.*'], 'speed': 3}}
+        trb = [{'name': 'one', 'data': {'uses': ['fast.json as a', 'slow.json as b']}}, {'name': 'two', 'data': {'uses': ['new.json as a', 'fast.json as b']}}]
+        trs = []
+        for first, second in ((2, 0), (0, 2)):        # task order of chain one: a::source, a::model, b::source, b::model
+            trc = dict(classes=tr, files=trf, base=trb[0], context=None)
+            trc['ops'] = [{'op': 'multi', 'bases': trb}] + [{'op': 'value', 'chain': ch, 'pick': k} for ch in (0, 1) for k in (1, 3)] + \
+                         [{'op': 'force_multi', 'multi': 0, 'picks': [first], 'recompute': False, 'delete': False},
+                          {'op': 'force_multi', 'multi': 0, 'picks': [second], 'recompute': False, 'delete': False}] + \
+                         [{'op': 'flags', 'chain': ch} for ch in (0, 1)] + [{'op': 'value', 'chain': ch, 'pick': k} for ch in (1, 0) for k in (1, 3)]
+            trs.append(trc)
+        return [c, d, g, n, sh, nc, lf, mt, abc] + trs
 
     def oracle(self, case, obs):
         m = multi_oracle(case, obs)
